@@ -225,7 +225,7 @@ func printFileAnnotationAsGithubActions(buffer *bytes.Buffer, f FileAnnotation) 
 		path = f.FileInfo().ExternalPath()
 	}
 	_, _ = buffer.WriteString("file=")
-	_, _ = buffer.WriteString(path)
+	_, _ = buffer.WriteString(githubActionsPropertyEscaper.Replace(path))
 
 	// Everything else is optional.
 	if startLine := f.StartLine(); startLine > 0 {
@@ -250,14 +250,23 @@ func printFileAnnotationAsGithubActions(buffer *bytes.Buffer, f FileAnnotation) 
 	}
 
 	_, _ = buffer.WriteString("::")
-	_, _ = buffer.WriteString(f.Message())
+	_, _ = buffer.WriteString(githubActionsDataEscaper.Replace(f.Message()))
 	if pluginName := f.PluginName(); pluginName != "" {
 		_, _ = buffer.WriteString(" (")
-		_, _ = buffer.WriteString(pluginName)
+		_, _ = buffer.WriteString(githubActionsDataEscaper.Replace(pluginName))
 		_, _ = buffer.WriteRune(')')
 	}
 	return nil
 }
+
+// GitHub Actions workflow commands are delimited by "::", "," and newlines and un-escape
+// percent-encoded characters, so the command data and property values must be escaped.
+//
+// https://github.com/actions/toolkit/blob/main/packages/core/src/command.ts
+var (
+	githubActionsDataEscaper     = strings.NewReplacer("%", "%25", "\r", "%0D", "\n", "%0A")
+	githubActionsPropertyEscaper = strings.NewReplacer("%", "%25", "\r", "%0D", "\n", "%0A", ":", "%3A", ",", "%2C")
+)
 
 type externalFileAnnotation struct {
 	Path        string `json:"path,omitempty" yaml:"path,omitempty"`
